@@ -357,7 +357,7 @@ def l3_spec(rng, kind_hint=None):
                             ["clone", 55.0], ["clone", 90.0]])
     spec = dict(region=region[0], ra0=region[1], dec0=region[2], flavour=flavour, unit=unit, nbins=nb, zmin=zmin, zmax=zmax, cosmo=cosmo,
                 closed=rng.choice(["right", "left"]), auto=rng.random() < 0.4, npatch=rng.choice([2, 3, 4, 5]),
-                nscales=rng.choice([1, 1, 2]), rweight=rng.choice([None, None, None, -1.0, 0.5]), resolution=rng.choice([None, 3, 10]),
+                nscales=rng.choice([1, 1, 2, 2, 3]), scale_order=rng.randrange(6), rweight=rng.choice([None, None, None, -1.0, 0.5]), resolution=rng.choice([None, 3, 10]),
                 weights=rng.random() < 0.6, count_rr=rng.random() < 0.5, rands=rng.choice(["both", "unk", "ref"]),
                 prior=rng.random() < 0.25, dseed=rng.randrange(10 ** 6))
     # the geometry is drawn from its own generator (the sequence of the draws above is what it was before)
@@ -399,7 +399,9 @@ def run_l3_case(ctx, spec, cid, terms, metas, cov):
         rmax = th * dist * (1000.0 if unit == "kpc/h" else 1.0)
     else:
         rmax = {"rad": th, "deg": theta0, "arcmin": theta0 * 60, "arcsec": theta0 * 3600}[unit]
-    rmaxs = [rmax * f for f in ([1.0] if spec["nscales"] == 1 else [0.5, 1.0])]
+    # several scales in any order (ascending, descending, largest in the middle)
+    factors = {1: [[1.0]], 2: [[0.5, 1.0], [1.0, 0.5]], 3: [[0.25, 0.5, 1.0], [1.0, 0.5, 0.25], [0.5, 1.0, 0.25]]}[spec["nscales"]]
+    rmaxs = [rmax * f for f in factors[spec.get("scale_order", 0) % len(factors)]]
     rmins = [r * rng.choice([0.1, 0.25]) for r in rmaxs]
     cfg = yaw.Configuration.create(rmin=rmins, rmax=rmaxs, unit=unit, rweight=spec["rweight"], resolution=spec["resolution"],
                                    edges=edges, closed=spec["closed"], max_workers=1, **cosmo_kw)
